@@ -62,16 +62,37 @@ def cells(thorough):
     for sr, sa in itertools.product(opts, repeat=2):
         for enc in (False, True):
             out.append(dict(wr=None, wa=None, wo=None, sr=sr, sa=sa, enc=enc, cor='none', ident='id0', primed=False))
-    if thorough:
-        # two-assertion / advice variants are covered by C01/C17; here: second identity under every corruption
-        pass
+    # mixed shape: one (validly signed) encrypted assertion next to a plain assertion whose signature is
+    # valid / corrupted / absent.  Only the reject direction is demanded here (saml2int allows one assertion).
+    for wr, wa, wo in itertools.product(opts, repeat=3):
+        for plain in ('signed', 'corrupted', 'unsigned'):
+            for sr in opts:
+                out.append(dict(wr=wr, wa=wa, wo=wo, sr=sr, sa=True, enc='mixed', cor='plain-' + plain, ident='id0', primed=False))
     return out
 
 
 TMP = [None]
 
 
+def build_mixed(cell, now):
+    plain = cell['cor'][6:]
+    a1 = forge.assertion(now, aid='A1', sign=True, **IDENTS['id0'])
+    a2 = forge.assertion(now, aid='A2', sign=(plain != 'unsigned'), subject='second', attrs=(('title', ('SECOND-ASSERTION',)),))
+    x = forge.response(now, [a1, a2], sign=bool(cell['sr']))
+    x = forge.sign(x, 'A1', 'idpA')
+    if plain != 'unsigned':
+        x = forge.sign(x, 'A2', 'idpA')
+    if plain == 'corrupted':
+        x = x.replace('SECOND-ASSERTION', 'SECOND-ASSERTION-EDITED')
+    x = forge.encrypt_assertions(x, 'spXenc1', which=['A1'])
+    if cell['sr']:
+        x = forge.sign(x, 'R1', 'idpA')
+    return x
+
+
 def build(cell, now):
+    if cell['enc'] == 'mixed':
+        return build_mixed(cell, now)
     cor = cell['cor']
     a = dict(IDENTS[cell['ident']])
     kw = dict(assertions=[a], sign_resp=False, sign_ass=False)
@@ -96,6 +117,10 @@ def build(cell, now):
 
 
 def expected(cell):
+    if cell['enc'] == 'mixed':
+        plain = cell['cor'][6:]
+        req = (not cell['wr'] or cell['sr']) and (not cell['wa'] or plain == 'signed') and (not cell['wo'] or cell['sr'] or plain == 'signed')
+        return None if (req and plain != 'corrupted') else False      # None: acceptance not demanded
     wr = True if cell['wr'] is None else cell['wr']      # documented default: want_response_signed = True
     wa = bool(cell['wa'])
     wo = bool(cell['wo'])
@@ -145,10 +170,12 @@ def run(ctx):
             key = dict(c)
             key['kind'] = 'rejected-but-must-accept'
             ctx.violation(key, {'observed': r, 'note': 'the pristine fully signed message was rejected'})
+        elif exp is None:
+            pass
         elif r['accept'] != exp:
             key['kind'] = 'accepted-but-must-reject' if r['accept'] else 'rejected-but-must-accept'
             ctx.violation(key, {'observed': r, 'expected_accept': exp})
-        elif r['accept'] and r['subject'] != forge_subject(c):
+        elif r['accept'] and c['enc'] != 'mixed' and r['subject'] != forge_subject(c):
             key['kind'] = 'wrong-identity'
             ctx.violation(key, {'observed': r})
         # non-trivial: the cell's expected verdict depends on a requirement or a corruption, i.e. at least one
@@ -184,4 +211,4 @@ def replay(ctx, w):
     cell = {k: w.get(k) for k in ('wr', 'wa', 'wo', 'sr', 'sa', 'enc', 'cor', 'ident', 'primed')}
     r = evaluate(cell)
     exp = expected(cell)
-    return {'violation': r['accept'] != exp, 'observed': r, 'expected_accept': exp}
+    return {'violation': exp is not None and r['accept'] != exp, 'observed': r, 'expected_accept': exp}
